@@ -24,3 +24,27 @@ def showInts (l : List Int) : String := ",".intercalate (l.map toString)
 def words (s : String) : List String := (s.splitOn " ").filter (· ≠ "")
 
 end Navis.Proto
+
+namespace Navis.Proto
+
+/-- Split a request line into `(command, payload)`; the command is the first blank-separated word. -/
+def headRest (line : String) : String × String :=
+  let line := trim line
+  match line.splitOn " " with
+  | [] => ("", "")
+  | h :: t => (h, " ".intercalate t)
+
+/-- Generic request loop: `handle cmd payload` returns the answer line (`none` ⇒ `BAD-OP`). -/
+partial def mainLoop (handle : String → String → Option String) : IO Unit := do
+  let inp ← IO.getStdin
+  let out ← IO.getStdout
+  let rec go : IO Unit := do
+    let line ← inp.getLine
+    if line.isEmpty then return ()
+    let (h, r) := headRest line
+    out.putStrLn ((handle h r).getD "BAD-OP")
+    out.flush
+    go
+  go
+
+end Navis.Proto
